@@ -151,11 +151,17 @@ func extractSuggestion(p *core.Program, fi int, checker string, d core.Diag) (*s
 				}
 				for _, a := range []string{srcText(p, fi, target), astfmt.Sprint(target)} {
 					if a != "" && strings.HasPrefix(body, a+r.Infix) {
-						if r.Kind == "functype" {
-							// printed form "func(a int, b int)" replaces the signature after the name
-							continue
+						b := body[len(a)+len(r.Infix):]
+						if fd, ok := n.(*ast.FuncDecl); ok && r.Kind == "functype" {
+							// the printed form "func(a, b int) int" replaces the signature after the name
+							if !strings.HasPrefix(b, "func(") {
+								continue
+							}
+							sg := mk(fd.Type.Params, fd.Type.End(), strings.TrimPrefix(b, "func"))
+							sg.Node = fd
+							return sg, ""
 						}
-						return mk(target, target.End(), body[len(a)+len(r.Infix):]), ""
+						return mk(target, target.End(), b), ""
 					}
 				}
 			}
